@@ -154,6 +154,10 @@ def run(case):
     use0 = pert if (pert is not None and cls in sweep.ERRM | {"MinErrorFlow"}) else base
     add("all_weighted", use0, {}, {})
     if not case.get("single"):
+        # an extra isolated node (it is a source and a sink: the one-node route through it is a genuine route)
+        iso = dict(use0, nodes=list(use0["nodes"]) + ["z9"], node_w=dict(use0["node_w"], z9=2))
+        add("isolated_node", iso, {}, {})
+    if not case.get("single"):
         for v in V[:3]:
             d = dict(use0, node_w=dict(use0["node_w"]))
             d["node_w"][v] = None
@@ -280,6 +284,17 @@ def run(case):
                     if errs:
                         viol.append({"kind": "node_mode_not_explained", "msg": f"{ctx}: {errs[0]}", "routes": routes, "weights": on["sol"]["weights"]})
                         continue
+                    # the same answer read with the public 'remove empty routes' flag: one-node routes are not empty
+                    import inspect
+                    gs = on["model"].get_solution
+                    flag = [p_ for p_ in ("remove_empty_paths", "remove_empty_walks") if p_ in inspect.signature(gs).parameters]
+                    if flag:
+                        sol_f = gs(**{flag[0]: True})
+                        errs = preds.explain_errors(ninst, sol_f[rkey], sol_f["weights"], "node", list(ign_nodes), kw0["weight_type"])
+                        tags["filtered_solution_reads"] += 1
+                        if errs:
+                            viol.append({"kind": "node_mode_not_explained", "msg": f"{ctx}, get_solution({flag[0]}=True): {errs[0]}", "routes": sol_f[rkey], "weights": sol_f["weights"]})
+                            continue
                 if cover:
                     errs = preds.cover_errors(ninst, routes, "node", list(ign_nodes))
                     if errs:
